@@ -221,6 +221,8 @@ def step (st : St) (line : String) : St × String :=
   | ["axisfree"] => (st, "opaque")
   | "divide" :: _ => (st, "opaque")
   | ["popclear"] => (st, "opaque")
+  | ["popready"] => (st, "opaque")
+  | ["poptake", _] => (st, "opaque")
   | "popadd" :: _ => (st, "opaque")
   | "round" :: _ => (st, "opaque")
   | _ => (st, "bad-op")
